@@ -27,7 +27,7 @@ ASSUMPTIONS = [
 
 UNI = ['GaussianUnivariate', 'UniformUnivariate', 'BetaUnivariate', 'GammaUnivariate', 'StudentTUnivariate', 'LogLaplace',
        'TruncatedGaussian', 'GaussianKDE', 'Univariate']
-CALLS = ['uni_fit', 'uni_query', 'biv_fit', 'biv_query', 'select_copula', 'gauss_fit', 'gauss_query', 'gauss_sample_cond',
+CALLS = ['uni_select', 'uni_fit', 'uni_query', 'biv_fit', 'biv_query', 'select_copula', 'gauss_fit', 'gauss_query', 'gauss_sample_cond',
          'vine_fit', 'vine_likelihood', 'bisect', 'chandrupatla', 'dataset']
 
 
@@ -105,7 +105,31 @@ def oracle_call(case):
     name = case['call']
     cls = ['call:' + name]
     reused = True
-    if name in ('uni_fit', 'uni_query'):
+    if name == 'uni_select':
+        # a caller-owned candidate list, one of whose entries cannot be fitted
+        from copulas.univariate import Univariate
+        from copulas.univariate.selection import select_univariate
+        from vlib import support
+
+        x = rs.gamma(2.0, size=n) + 1.0
+        order = rs.permutation(4)
+        pool = [M.uni_class('GaussianUnivariate'), support.Boom, M.uni_class('GammaUnivariate'), 'copulas.univariate.no_such_module.Nope']
+        cands = [pool[i] for i in order]
+        keep = list(cands)
+
+        def fit_obs(lst, data):
+            m = Univariate(candidates=lst)
+            m.fit(data)
+            return m.to_dict()
+
+        r1, r2 = run_twice(fit_obs, [cands, x], 'Univariate(candidates=list).fit', ['candidates', 'training data'])
+        same_result(r1, r2, 'Univariate(candidates=list).fit')
+        require(len(cands) == len(keep) and all(a is b for a, b in zip(cands, keep)), 'Univariate.fit modified the caller\'s candidates list: %r' % (cands,), tag='input-mutated')
+        r1, r2 = run_twice(lambda data, lst: type(select_univariate(data, lst)).__name__, [x, cands], 'select_univariate', ['data', 'candidates'])
+        same_result(r1, r2, 'select_univariate')
+        require(len(cands) == len(keep) and all(a is b for a, b in zip(cands, keep)), 'select_univariate modified the caller\'s candidates list: %r' % (cands,), tag='input-mutated')
+        cls.append('candidates-with-failing-entry')
+    elif name in ('uni_fit', 'uni_query'):
         x = rs.gamma(2.0, size=n) + 1.0
         kind = cont if cont in ('ndarray', 'ndarray_ro', 'series') else 'ndarray_ro'
         arg = pd.Series(x.copy(), name='col') if kind == 'series' else as_array(x, kind)
